@@ -396,6 +396,19 @@ func (x *Exec) unop(fr *Frame, st *State, t *ssa.UnOp) Val {
 	return fv
 }
 
+func intBoundsBig(t types.Type) (lo, hi *big.Int, ok bool) {
+	bits, signed, ok := intInfo(t)
+	if !ok {
+		return nil, nil, false
+	}
+	one := big.NewInt(1)
+	if signed {
+		h := new(big.Int).Lsh(one, uint(bits-1))
+		return new(big.Int).Neg(h), new(big.Int).Sub(h, one), true
+	}
+	return big.NewInt(0), new(big.Int).Sub(new(big.Int).Lsh(one, uint(bits)), one), true
+}
+
 func isFloat(t types.Type) bool {
 	b, ok := t.Underlying().(*types.Basic)
 	return ok && b.Info()&types.IsFloat != 0
@@ -433,6 +446,13 @@ func (x *Exec) wrapAt(fr *Frame, st *State, site ssa.Instruction, t types.Type, 
 		return term
 	}
 	key := x.siteKey(fr, site)
+	if x.textNames && x.preWrap != nil && x.preWrap[x.peekName("range", site.Pos())] {
+		// keep the numbering of later obligations on this line stable
+		x.obCount["range"]++
+		x.obCount["range:"+x.V.lineText(site.Pos())]++
+		x.wrapped++
+		return x.define("w", "Int", "("+w+" "+term+")")
+	}
 	if x.mustWrap[key] || x.mustWrap["*"] {
 		x.wrapped++
 		return x.define("w", "Int", "("+w+" "+term+")")
@@ -452,6 +472,52 @@ func (x *Exec) siteKey(fr *Frame, site ssa.Instruction) string {
 		path += fmt.Sprintf("/%p", f.callSite)
 	}
 	return fmt.Sprintf("%p%s|%s", site, path, x.splitLabel)
+}
+
+// litVal parses an SMT integer literal produced by this generator ("12", "(- 3)").
+func litVal(t string) (*big.Int, bool) {
+	if !isLiteral(t) || t == "true" || t == "false" {
+		return nil, false
+	}
+	neg := false
+	u := t
+	if strings.HasPrefix(t, "(- ") {
+		neg = true
+		u = strings.TrimSuffix(t[3:], ")")
+	}
+	b, ok := new(big.Int).SetString(u, 10)
+	if !ok {
+		return nil, false
+	}
+	if neg {
+		b.Neg(b)
+	}
+	return b, true
+}
+
+func bigLit(b *big.Int) string {
+	if b.Sign() < 0 {
+		return "(- " + new(big.Int).Neg(b).String() + ")"
+	}
+	return b.String()
+}
+
+// termConstInt: the operand is an SSA constant or its term is a literal (after split substitution).
+func termConstInt(v ssa.Value, term string) (int64, bool) {
+	if n, ok := constInt(v); ok {
+		return n, true
+	}
+	if b, ok := litVal(term); ok && b.IsInt64() {
+		return b.Int64(), true
+	}
+	return 0, false
+}
+
+func termConstBig(v ssa.Value, term string) (*big.Int, bool) {
+	if b, ok := constBig(v); ok {
+		return b, true
+	}
+	return litVal(term)
 }
 
 // constShift returns the constant value of v if it is an integer constant.
@@ -541,6 +607,29 @@ func (x *Exec) binop(fr *Frame, st *State, t *ssa.BinOp) Val {
 		return fv
 	}
 	A, B := a.t(), b.t()
+	if la, ok := litVal(A); ok {
+		if lb, ok := litVal(B); ok {
+			var r *big.Int
+			switch t.Op {
+			case token.ADD:
+				r = new(big.Int).Add(la, lb)
+			case token.SUB:
+				r = new(big.Int).Sub(la, lb)
+			case token.MUL:
+				r = new(big.Int).Mul(la, lb)
+			case token.SHL:
+				if lb.Sign() >= 0 && lb.IsInt64() && lb.Int64() < 64 {
+					r = new(big.Int).Lsh(la, uint(lb.Int64()))
+				}
+			}
+			if r != nil {
+				// fold only when the result fits the type (no wrap-around to model)
+				if lo, hi, ok := intBoundsBig(rt); ok && r.Cmp(lo) >= 0 && r.Cmp(hi) <= 0 {
+					return mk(bigLit(r))
+				}
+			}
+		}
+	}
 	switch t.Op {
 	case token.LSS:
 		return mk("(< " + A + " " + B + ")")
@@ -558,7 +647,7 @@ func (x *Exec) binop(fr *Frame, st *State, t *ssa.BinOp) Val {
 		return mk(x.wrapAt(fr, st, t, rt, "(* "+A+" "+B+")"))
 	case token.QUO:
 		x.safety(st, fr, "div-zero", t.Pos(), "(not (= "+B+" 0))")
-		if n, ok := constInt(t.Y); ok && n > 0 {
+		if n, ok := termConstInt(t.Y, B); ok && n > 0 {
 			_, signed, _ := intInfo(rt)
 			if !signed {
 				return mk("(div " + A + " " + B + ")")
@@ -568,7 +657,7 @@ func (x *Exec) binop(fr *Frame, st *State, t *ssa.BinOp) Val {
 		return mk(x.wrapAt(fr, st, t, rt, "(tdiv "+A+" "+B+")"))
 	case token.REM:
 		x.safety(st, fr, "div-zero", t.Pos(), "(not (= "+B+" 0))")
-		if n, ok := constInt(t.Y); ok && n > 0 {
+		if n, ok := termConstInt(t.Y, B); ok && n > 0 {
 			_, signed, _ := intInfo(rt)
 			if !signed {
 				return mk("(mod " + A + " " + B + ")")
@@ -579,11 +668,11 @@ func (x *Exec) binop(fr *Frame, st *State, t *ssa.BinOp) Val {
 	case token.SHL, token.SHR:
 		bits, _, _ := intInfo(rt)
 		if _, signedCount, _ := intInfo(t.Y.Type()); signedCount {
-			if _, isConst := constInt(t.Y); !isConst {
+			if _, isConst := termConstInt(t.Y, B); !isConst {
 				x.safety(st, fr, "shift-neg", t.Pos(), "(>= "+B+" 0)")
 			}
 		}
-		if n, ok := constInt(t.Y); ok {
+		if n, ok := termConstInt(t.Y, B); ok && n >= 0 {
 			if n >= int64(bits) {
 				if t.Op == token.SHL {
 					return mk("0")
@@ -600,14 +689,32 @@ func (x *Exec) binop(fr *Frame, st *State, t *ssa.BinOp) Val {
 		}
 		return mk("(div " + A + " (pow2 " + B + "))")
 	case token.AND:
-		if n, ok := constBig(t.Y); ok {
+		if n, ok := termConstBig(t.Y, B); ok {
 			if k, ok := isMask(n); ok {
 				return mk("(mod " + A + " " + pow2str(k) + ")")
 			}
 		}
-		if n, ok := constBig(t.X); ok {
+		if n, ok := termConstBig(t.X, A); ok {
 			if k, ok := isMask(n); ok {
 				return mk("(mod " + B + " " + pow2str(k) + ")")
+			}
+		}
+		// constant mask of contiguous bits a..a+b-1 on a non-negative operand:
+		// x & m = ((x div 2^a) mod 2^b) * 2^a
+		for side := 0; side < 2; side++ {
+			mv, mt, ot := t.Y, B, A
+			if side == 1 {
+				mv, mt, ot = t.X, A, B
+			}
+			if n, ok := termConstBig(mv, mt); ok && n.Sign() > 0 {
+				a := int(n.TrailingZeroBits())
+				sh := new(big.Int).Rsh(n, uint(a))
+				if bb, ok := isMask(sh); ok && a > 0 {
+					exact := "(* (mod (div " + ot + " " + pow2str(a) + ") " + pow2str(bb) + ") " + pow2str(a) + ")"
+					r := x.define("band", "Int", "(band "+A+" "+B+")")
+					x.assume(st, bitAxioms("and", r, A, B, rt))
+					return mk(smtIte("(>= "+ot+" 0)", exact, r))
+				}
 			}
 		}
 		r := x.define("band", "Int", "(band "+A+" "+B+")")
@@ -663,6 +770,16 @@ func shlConst(v ssa.Value) (int, bool) {
 					return c1, true
 				}
 				return c2, true
+			}
+		}
+		if t.Op == token.AND {
+			// x & m with a constant mask whose low a bits are zero is a multiple of 2^a
+			for _, op := range []ssa.Value{t.X, t.Y} {
+				if n, ok := constBig(op); ok && n.Sign() > 0 {
+					if a := int(n.TrailingZeroBits()); a > 0 && a < 64 {
+						return a, true
+					}
+				}
 			}
 		}
 	case *ssa.Convert:
